@@ -48,12 +48,13 @@ def oracle_fill(system, cols, vals, T, outcome, kw=None):
     fails = []
     nz = set(fc.invariant_basis(system)["nonzero"])
     scale = float(numpy.max(numpy.abs(T))) or 1.0
+    datol = float((kw or {}).get("drop_atol", 0.0))          # a REQUESTED drop tolerance: components below it at every volume vanish
     if outcome["status"] != "ok":
         return [("a symmetry-consistent sufficient table was not filled", outcome["status"], "ok")]
     out = fc.as_map(outcome)
     # 1. every non-vanishing component is present and equals the invariant tensor; vanishing ones are omitted
     for i, s in enumerate(fc.SYMS):
-        if i in nz and float(numpy.max(numpy.abs(T[:, i]))) <= 1e-12 * scale:
+        if i in nz and float(numpy.max(numpy.abs(T[:, i]))) <= max(1e-12 * scale, datol):
             # allowed by the system but zero in THIS tensor (a tensor of a higher symmetry): a vanishing component, omitted
             if s in out and float(numpy.max(numpy.abs(out[s]))) > RTOL * scale:
                 fails.append((f"component {s} vanishes in the invariant tensor but is returned non-zero", out[s], "omitted / 0"))
@@ -72,7 +73,7 @@ def oracle_fill(system, cols, vals, T, outcome, kw=None):
         if key in out:
             if float(numpy.max(numpy.abs(numpy.array(out[key]) - numpy.array(col)))) > RTOL * max(scale, max(abs(x) for x in col)):
                 fails.append((f"supplied column {name} changed", out[key], col))
-        elif not (key in fc.SYMS and (fc.SYMS.index(key) not in nz or max(abs(x) for x in col) <= 1e-12 * scale)):
+        elif not (key in fc.SYMS and (fc.SYMS.index(key) not in nz or max(abs(x) for x in col) <= max(1e-12 * scale, datol))):
             fails.append((f"column {name} disappeared", None, col))
     # 3. the rebuilt full tensor is invariant under the explicit rotations of the Laue class
     for r in range(T.shape[0]):
@@ -278,6 +279,43 @@ def run(ctx: Ctx) -> Result:
                 res.oracle_failures.append(OracleFailure(what=f"apply_symetry_on_elast_data, call {rep + 1} with the same settings dictionary: " + what,
                                                          input={"check": "elastdata-shared", "system": system, "calls": rep + 1, "supplied": list(S), "tensor": T.tolist()},
                                                          observed=obs, expected=exp, site=f"c08:elastdata-shared:{system}"))
+    # UPPER-CASE headers with explicit zero columns for symmetry-forbidden components (vanishing components are omitted whatever the
+    # letter case of the header), and a REQUESTED drop tolerance with a symmetry-allowed component below it at every volume
+    n_case = 0
+    dep3 = [s_ for s_ in fc.SYSTEMS if len(fc.invariant_basis(s_)["nonzero"]) > fc.EXPECTED_DIM[s_]]
+    for k in range(4 if ctx.thorough() else 2):
+        system = dep3[(ctx.seed + 2 + k) % len(dep3)]
+        info = fc.invariant_basis(system)
+        mins = fc.minimal_sufficient_subsets(system)
+        S = list(mins[int(rng.integers(0, len(mins)))])
+        forbidden = [i for i in range(21) if i not in set(info["nonzero"])]
+        nrow = int(rng.integers(1, 5))
+        T = fc.random_invariant(system, nrow, rng)
+        if k % 2 == 0 and forbidden:
+            zeros = [int(x) for x in rng.choice(forbidden, size=min(3, len(forbidden)), replace=False)]
+            sup = S + zeros
+            cols = [fc.SYMS[i].upper() for i in sup]; vals = [[float(T[r, i]) for r in range(nrow)] for i in sup]
+            kw_ = None; tag = "upper-case header, explicit zero columns"
+        else:
+            # one independent coupling scaled down to ~1e-6 (with everything proportional to it: the tensor stays invariant)
+            B = info["B"]; coef = numpy.linalg.lstsq(B, T.T, rcond=None)[0].T
+            small = [j for j in range(B.shape[1]) if all(int(fc.SYMS[i][2]) >= 4 and fc.SYMS[i][1] != fc.SYMS[i][2] for i in numpy.nonzero(numpy.abs(B[:, j]) > 1e-12)[0])]
+            if not small: continue
+            j0 = small[int(rng.integers(0, len(small)))]
+            coef[:, j0] = numpy.sign(coef[:, j0] + 1e-30) * rng.uniform(1e-6, 5e-6, size=nrow)
+            T = coef @ B.T
+            sup = S
+            cols = [fc.SYMS[i] for i in sup]; vals = [[float(T[r, i]) for r in range(nrow)] for i in sup]
+            kw_ = {"drop_atol": 1e-4}; tag = "requested drop_atol 1e-4, a coupling of ~1e-6"
+        out = fc.run_impl(cols, vals, system, kw_)
+        res.evaluations += 1; n_case += 1
+        fails = oracle_fill(system, cols, vals, T, out, kw_)
+        if not fails: res.traces_validated += 1
+        for what, obs, exp in fails[:2]:
+            res.oracle_failures.append(OracleFailure(what=f"{tag}: " + what,
+                                                     input={"check": "case-droptol", "system": system, "columns": cols, "values": vals, "tensor": T.tolist(), "kw": kw_},
+                                                     observed=obs, expected=exp, site=f"c08:case-droptol:{system}"))
+    res.distribution["upper_case_zero_and_drop_tolerance_cases"] = n_case
     # integer-typed tables: every supplied column holds integer literals (int64 in pandas).  Supplied values stay what they are and the
     # generated partners equal them exactly — the filled table is the invariant tensor whatever the column type
     n_int = 0
@@ -358,6 +396,11 @@ def search(ctx: Ctx, res: Result):
 def replay(ctx: Ctx, payload):
     T = numpy.array(payload["tensor"], dtype=float)
     system = payload["system"]
+    if payload.get("check") == "case-droptol":
+        T = numpy.array(payload["tensor"], dtype=float)
+        out = fc.run_impl(payload["columns"], payload["values"], system, payload.get("kw"))
+        return [OracleFailure(what="case/drop tolerance: " + w, input=payload, observed=o, expected=e, site=f"c08:case-droptol:{system}")
+                for w, o, e in oracle_fill(system, payload["columns"], payload["values"], T, out, payload.get("kw"))[:2]]
     if payload.get("check") == "int-columns":
         T = numpy.array(payload["tensor"], dtype=float); S = list(payload["supplied"])
         cols = [fc.SYMS[i] for i in S]; vals = [[float(round(x)) for x in T[:, i]] for i in S]
